@@ -1,7 +1,7 @@
 (* C01/Property.v — property theorems only. *)
-From Coq Require Import Bool List.
-From Verif Require Import C01.Model C01.Spec C01.Proofs.
-From VerifGen Require Import C01Tables.
+From Coq Require Import Bool List String.
+From Verif Require Import Base.Py Base.Py2 Base.Str C01.Model C01.Spec C01.Proofs C01.Source2.
+From VerifGen Require Import C01Tables C01Src2 C01Src2p.
 Import ListNotations.
 
 (* C01: for every setting of the three want_* options and of only_use_keys_in_metadata (unset / True /
@@ -11,7 +11,11 @@ Import ListNotations.
    encrypted assertion and binding: identity iff every present signature verifies under a key trusted
    for the issuer the signed element names and the demanded signatures are carried (PAOS is never
    unravelled; an assertion without Issuer or a Response naming another issuer than its assertion is
-   not "otherwise valid"). *)
+   not "otherwise valid").  Round 3: every signature has a SHAPE (the list of its References' targets:
+   own ID / another element of the document / whole document / xpointer / "#" / dangling / external;
+   canonicalisation; Transform list; ds:Object; a second ds:Signature child before or after it), lists
+   of any length; a signature counts as verifying only when it digests the element that carries it and
+   is the only one; signatures outside the SAML XML Signature profile need not be accepted. *)
 Theorem c01_policy : forall c m, spec_m c m (parse_message c m).
 Proof. exact policy_holds_m. Qed.
 Print Assumptions c01_policy.
@@ -50,7 +54,7 @@ Proof. exact spec_seq_b_iff. Qed.
 Print Assumptions c01_spec_seq_reflect.
 
 Theorem c01_history_independent :
-  forall c pre m, sp_run c (pre ++ [m]) = sp_run c pre ++ [parse_message c m].
+  forall c pre m, sp_run c (pre ++ [m])%list = (sp_run c pre ++ [parse_message c m])%list.
 Proof. exact history_independent. Qed.
 Print Assumptions c01_history_independent.
 
@@ -67,3 +71,114 @@ Theorem c01_identity_needs_metadata_keys :
               vouched (r_who m) (m_rs m) /\ vouched (a_who m) (m_as m).
 Proof. exact identity_needs_metadata_keys. Qed.
 Print Assumptions c01_identity_needs_metadata_keys.
+
+(* the validators table of _check_signature + the only-Signature-child test let through exactly the
+   signatures in the form of the SAML XML Signature profile (Spec.in_profile), for Reference and
+   Transform lists of any length *)
+Theorem c01_profile_gate : forall s, passes s = in_profile s.
+Proof. exact gate_is_profile. Qed.
+Print Assumptions c01_profile_gate.
+
+(* signature wrapping: whatever the options, no identity from a message that carries a signature whose
+   Reference selects another element, the whole document, nothing, ... or that has a second ds:Signature *)
+Theorem c01_identity_needs_profile :
+  forall c m, parse_message c m = true -> sig_in_profile (m_rs m) = true /\ sig_in_profile (m_as m) = true.
+Proof. exact identity_needs_profile. Qed.
+Print Assumptions c01_identity_needs_profile.
+
+(* ---- source tie, translator v2: the functions below are re-translated from the source text of /repo on every
+   run (coq/gen/C01Src2.v, C01Src2p.v); each theorem says that the translated function, applied to the encoded
+   model input, yields the encoded output of the model function it mirrors (proofs: C01/Source2.v) ---- *)
+
+(* sigver.py SecurityContext.correctly_signed_response = Model.load_response; externals (XML parser, _check_signature,
+   class_name) universally quantified under the hypotheses shown *)
+Theorem c01_source2_correctly_signed_response :
+  forall (parse_resp : pyval -> pyval) (check_sig : pyval -> pyval -> pyval -> pyval -> pyval)
+         (class_name_ext : pyval -> pyval) (xml origdoc : pyval) (present : bool) (v : vres),
+  is_bad xml = false -> is_bad origdoc = false ->
+  parse_resp xml = enc_parsed present ->
+  is_bad (class_name_ext (enc_parsed present)) = false ->
+  check_sig xml (enc_parsed present) (class_name_ext (enc_parsed present)) origdoc = enc_vres (enc_parsed present) v ->
+  forall (self must ovc : pyval) (req : bool),
+  src2_correctly_signed_response parse_resp check_sig class_name_ext self xml must origdoc ovc (PBool req) (PObj nil)
+  = enc_loaded present (load_response req (sres_of present v)).
+Proof. exact src2_correctly_signed_response_is_model. Qed.
+Print Assumptions c01_source2_correctly_signed_response.
+
+(* response.py AuthnResponse._assertion = Model.verify_assertions (requirement, verification, issuer comparison);
+   the other checks of the assertion are "otherwise valid" *)
+Theorem c01_source2_assertion :
+  forall (check_sig3 : pyval -> pyval -> pyval -> pyval)
+         (class_name_ext issuer_ext authn_statement_ok_ext condition_ok_ext get_subject_ext : pyval -> pyval)
+         (q present : bool) (v : vres) (ri ai : option string) (xs : string),
+  match ai with Some t => end_ascii (strip t) = true | None => True end ->
+  is_bad (class_name_ext (enc_assertion present ai)) = false ->
+  check_sig3 (enc_assertion present ai) (class_name_ext (enc_assertion present ai)) (PStr xs) = enc_vres (enc_assertion present ai) v ->
+  issuer_ext (enc_self q xs) = enc_ostr ri ->
+  (forall s : pyval, is_bad (authn_statement_ok_ext s) = false) ->
+  (forall s : pyval, condition_ok_ext s = PBool true) ->
+  (forall s : pyval, is_bad (get_subject_ext s) = false) ->
+  src2_assertion check_sig3 class_name_ext issuer_ext authn_statement_ok_ext condition_ok_ext get_subject_ext
+                 (enc_self q xs) (enc_assertion present ai) (PBool false)
+  = match verify_exc q (sres_of present v) (im_s ri ai) with Some n => PExc n | None => PBool true end.
+Proof. exact src2_assertion_is_model. Qed.
+Print Assumptions c01_source2_assertion.
+
+(* entity.py Entity._parse_response (desugared) = Model.core, with the name of the exception: for every option
+   setting, finding on the Response and on the assertion, issuer comparison and binding; with / without
+   accepted_time_diff and return_addrs.  The externals answer what the model's sub-functions say (the ext_ functions of Source2.v) *)
+Theorem c01_source2_parse_response :
+  forall (time_diff with_addrs wr wa wor : bool) (r a : sres) (im : bool) (b : bind),
+  parse_response_run time_diff with_addrs wr wa wor r a im b = enc_result wr wa wor (core_exc wr wa wor r a im b).
+Proof. exact src2_parse_response_is_model. Qed.
+Print Assumptions c01_source2_parse_response.
+
+Theorem c01_source2_core_exc :
+  forall wr wa wor r a im b,
+  match core_exc wr wa wor r a im b with RIdentity => true | RExc _ => false end = core wr wa wor r a im b.
+Proof. exact core_exc_core. Qed.
+Print Assumptions c01_source2_core_exc.
+
+(* response.py AuthnResponse.__init__: want_response_signed / want_assertions_signed /
+   want_assertions_or_response_signed become require_response_signature / require_signature /
+   require_signature_or_response_signature *)
+Theorem c01_source2_authn_response_init :
+  forall wa wor wr : bool,
+  flags_of (state_of (authn_response_init_run (PBool wa) (PBool wor) (PBool wr))) = PList [PBool wr; PBool wa; PBool wor].
+Proof. exact src2_authn_response_init_is_model. Qed.
+Print Assumptions c01_source2_authn_response_init.
+
+(* client_base.py Base.__init__ = Model.resolve on the regenerated defaults *)
+Theorem c01_source2_base_init :
+  forall o_wr o_wa o_wor : optv,
+  options_of (state_of (base_init_run o_wr o_wa o_wor))
+  = PList [PBool (resolve o_wr want_response_signed_default); PBool (resolve o_wa want_assertions_signed_default);
+           PBool (resolve o_wor want_assertions_or_response_signed_default)].
+Proof. exact src2_base_init_is_model. Qed.
+Print Assumptions c01_source2_base_init.
+
+(* client_base.py Base.parse_authn_request_response (desugared): the keywords _parse_response is called with *)
+Theorem c01_source2_parse_authn_request_response :
+  forall (wr wa wor : bool) (b : bind),
+  src2_parse_authn_request_response ext_service_urls echo_parse_response ext_add_info ext_session_info
+    (sp_ready wr wa wor) (PStr "<xml/>") (PStr (bind_uri b)) (PObj [("req-1", PStr "/")]) PNone PNone
+  = echo_parse_response PNone (PStr "<xml/>") enc_cls (PStr "assertion_consumer_service") (PStr (bind_uri b))
+      (PObj [("outstanding_queries", PObj [("req-1", PStr "/")]); ("outstanding_certs", PNone);
+             ("allow_unsolicited", PBool false); ("want_assertions_signed", PBool wa);
+             ("want_assertions_or_response_signed", PBool wor); ("want_response_signed", PBool wr);
+             ("return_addrs", acs); ("entity_id", PStr "https://sp.example.org/sp.xml"); ("attribute_converters", PList []);
+             ("allow_unknown_attributes", PBool false); ("conv_info", PNone)]).
+Proof. exact src2_parse_authn_request_response_plumbing. Qed.
+Print Assumptions c01_source2_parse_authn_request_response.
+
+(* the chain Base.__init__ -> parse_authn_request_response -> _parse_response -> AuthnResponse.__init__ -> two
+   passes, from the CONFIGURED option values to the verdict = Model.parse_message *)
+Theorem c01_source2_chain :
+  forall (c : config) (m : msg),
+  let r := look (resolve (c_only c) only_use_keys_in_metadata_default) (r_who m) (r_schema_ok m) (m_rs m) in
+  let a := look (resolve (c_only c) only_use_keys_in_metadata_default) (a_issuer m) (has_issuer (a_who m)) (m_as m) in
+  match outcome_of (chain_run (state_of (base_init_run (c_wr c) (c_wa c) (c_wor c))) r a (issuers_match m) (m_bind m))
+  with RIdentity => true | RExc _ => false end
+  = parse_message c m.
+Proof. exact src2_chain_parse_message. Qed.
+Print Assumptions c01_source2_chain.
